@@ -23,6 +23,9 @@ WITHOUT_COLOR_HASH = 1  # F5: Style.without_color copies the old hash
 UPDATE_LINK_HASH = 1    # F6: Style.update_link copies the old hash
 UPDATE_LINK_DEF = 1     # F26: Style.update_link copies the cached _style_definition
 FLAGS = "".join(str(int(bool(x))) for x in (RGB_VALUEERROR, ADD_HASH, FROM_COLOR_HASH, WITHOUT_COLOR_HASH, UPDATE_LINK_HASH, UPDATE_LINK_DEF))
+# development aid only (trying a pending fix in a scratch worktree): VERIF_C06_FLAGS=100000 overrides the constants above
+FLAGS = os.environ.get("VERIF_C06_FLAGS") or FLAGS
+assert len(FLAGS) == 6 and set(FLAGS) <= {"0", "1"}
 
 # The documented spellings (docs/source/style.rst + the Style docstring): word -> attribute it names.
 SPELLINGS = {
@@ -546,6 +549,13 @@ def run(ctx):
     base += [("I", ("S", "red"), None, (True,) + (None,) * 12, None), ("I", None, ("S", "blue"), (False, None, True) + (None,) * 10, "x")]
     base += [("F", pools.canon_colors[0], None), ("F", None, pools.canon_colors[5]), ("P", "not bold italic on #010203 link y"), ("P", "none"), ("P", " ")]
     base += [("I", None, None, (None,) * 12 + (True,), None), ("I", None, None, (None,) * 3 + (True, False, True, False, True, False) + (None,) * 4, None), ("I", None, None, (None,) * 13, "x")]
+    singles = [("I", None, None, tuple(v if j == i else None for j in range(13)), None) for i in range(13) for v in (True, False)]
+    for x in singles:  # every attribute alone, on and off (the three group guards of __str__, every bit weight of __init__)
+        s = route_case(x)
+        built.append((x, s))
+        for y in (singles[0], singles[25], base[4]):
+            s = route_case(("A", x, y))
+            built.append((("A", x, y), s))
     unary = []
     for x in base:
         unary += [x, ("T", x), ("C", x), ("W", x), ("O", x), ("B", x), ("U", None, x), ("U", "", x), ("U", "z", x), ("U", "z", ("T", x)), ("C", ("T", x)), ("W", ("T", x)), ("T", ("U", "z", ("T", x)))]
@@ -570,17 +580,7 @@ def run(ctx):
     ctx.flush()
 
     # ---- 5. every built style: == / hash / dict / set against the keyword-built equal style; round trip
-    def wf(s):
-        def okc(c):
-            if c is None:
-                return True
-            try:
-                return not any(ch.isspace() for ch in c.name) and Color.parse(c.name) == c
-            except Exception:
-                return False
-
-        lk = s.link
-        return okc(s.color) and okc(s.bgcolor) and (lk is None or (lk != "" and not any(ch.isspace() for ch in lk)))
+    wf = L.wf
 
     def eval_style(route, s):
         k = canonical(s)
@@ -606,7 +606,12 @@ def run(ctx):
             else:
                 ctx.check(True, "Style.__str__", None, "")
                 nz = Style.normalize(text)
-                ctx.check(Style.parse(nz) == s and nz == text, "Style.normalize", text, f"normalize(str(s)) = {nz!r} is not str(s) / does not parse back")
+                okn = Style.parse(nz) == s and nz == text
+                if not okn and stale_definition(route):
+                    # str() is a stale cached definition that happens to parse back to the style
+                    ctx.check(False, "Style.update_link", L.show(route), f"str() = {text!r} is not the definition of the style ({nz!r})", finding="str-stale-after-update-link")
+                else:
+                    ctx.check(okn, "Style.normalize", text, f"normalize(str(s)) = {nz!r} is not str(s) / does not parse back")
         else:
             ctx.note("roundtrip:not-wf")
 
@@ -683,6 +688,22 @@ def run(ctx):
                     ctx.check(False, site or "Style.__hash__", (L.show(ref_rt), L.show(rt)), f"equal styles, hash equal: {heq}, found as dict key: {d.get(o) == 'v'}", finding=slug)
                 else:
                     ctx.check(True, "Style.__hash__:pair", None, "")
+        # near misses: exactly one compared field changed -> must be unequal (and the model must say so)
+        c_, b_, kw_, link_ = spec
+        k = rng.randrange(13)
+        flipped = tuple((None if v is not None and rng.random() < 0.5 else (not v if v is not None else rng.random() < 0.5)) if j == k else v for j, v in enumerate(kw_))
+        other_c = rng.choice([x for x in pools.canon_colors + pools.odd_colors if x != c_] + ([None] if c_ is not None else []))
+        other_b = rng.choice([x for x in pools.canon_colors + pools.odd_colors if x != b_] + ([None] if b_ is not None else []))
+        other_l = rng.choice([x for x in ["x", "y", "https://a.b/c?d=e", "X", None] if x != link_])
+        carg = lambda x: None if x is None else ("C", x)
+        for what, near in (("attribute", (c_, b_, flipped, link_)), ("color", (other_c, b_, kw_, link_)), ("bgcolor", (c_, other_b, kw_, link_)), ("link", (c_, b_, kw_, other_l))):
+            nr = ("I", carg(near[0]), carg(near[1]), near[2], near[3])
+            if rng.random() < 0.5:
+                nr = rng.choice([("C", nr), ("T", nr), ("A", ("N",), nr), ("U", near[3], ("I", carg(near[0]), carg(near[1]), near[2], "q"))])
+            no = L.build(nr)
+            ne = no != ref and ref != no and not (no == ref)
+            ctx.check(ne, "Style.__eq__:" + what, (L.show(ref_rt), L.show(nr)), f"styles differing in one {what} compare equal")
+            ctx.case("route_pair", [FLAGS, L.enc_route(ref_rt), L.enc_route(nr)], f"eq={int(no == ref)} hasheq={int(hash(no) == hash(ref))}", shape="near:" + what)
         # random unrelated pair: the model must agree on == and on hash equality too
         r1, r2 = pools.route(2), pools.route(2)
         try:
@@ -707,3 +728,30 @@ def replay(ctx, case):
     print("what:", case.get("what"))
     print("re-run `./check C06` to re-evaluate (the generators are seeded: VERIF_SEED=%s)" % case.get("seed"))
     return False
+
+
+MANIFEST = {
+    "text": "Lean 4 theorems (Props/C06.lean) about an executable model of rich.style.Style / Color.parse, unbounded over all styles "
+    "(13 tri-state attributes as two bit masks x arbitrary colours x optional link) and all construction routes: "
+    "add_assoc ((a+b)+c = a+(b+c) as full object state, every variant), add_null_right/left, add_right_bias_attr/color/link "
+    "(right operand wins exactly where it specifies a value), chain_is_fold; parse_render_roundtrip / parse_str_roundtrip "
+    "(parse(str(s)) == s for every style satisfying the decidable predicate Style.wf), parse_result_wf (every parse result satisfies it), "
+    "parse_str_parse, normalize_roundtrip, normalize_idempotent (on definitions that parse); documented spellings: all 22 attribute words "
+    "and `not <word>`, every ANSI_COLOR_NAMES entry (table translated from rich/color.py each run) alone and after `on`, color(n) for n<=255, "
+    "default, #rrggbb for all hex digits, rgb(r,g,b) for all r,g,b<=255; eq_hash: for every two styles reachable through "
+    "__init__/from_color/parse/+/chain/combine/copy/update_link/without_color/str(), a == b implies equal stored hash keys "
+    "(induction on the construction route; proved for the code with pending_fixes/C06-hash-from-fields.diff, with decide-checked "
+    "witnesses old_*_hash_wrong that rich 9.10.0 as found violates it on four routes, and old_update_link_stale_str for the stale "
+    "str() cache). Tie: ~50k (quick) / ~1M (thorough) generated cases per run compared model-vs-rich on the full modelled state "
+    "(fields, _null, _style_definition, str(), the 13 getters, stored-hash consistency, wf), plus the theorems' executable statements "
+    "evaluated on real Style objects with model-independent oracles (keyword reconstruction, docs/source/appendix/colors.rst, dict/set behaviour).",
+    "note": "Partial: hash() itself is the Python runtime — modelled by the tuple that is hashed; assumption `equal tuples hash equally`, and the harness "
+    "compares hash equality with key equality on every route pair. Text outside ASCII is outside the model (str.lower/split/strip, \\d, \\s, int() are "
+    "Unicode-aware): such requests are answered `unmodelled` (counted) while the direct evaluation still runs on them. lru_cache on parse/normalize "
+    "assumed transparent; NULL_STYLE modelled in its steady state; _link_id and _ansi not modelled. A link is None or a non-empty string: "
+    "Style(link='') is modelled faithfully but lies outside the identity/round-trip statements (== tells '' from None although every other method "
+    "treats both as no link). normalize is NOT idempotent on definitions that do not parse (`italic not Bold`: witness theorem "
+    "normalize_not_idempotent_unparseable) — outside the statement. Trusted: Lean kernel; axioms propext/Classical.choice/Quot.sound; "
+    "translator plug-in harness/gen/color_names.py; the correspondence harness.",
+    "design_ref": "DESIGN.md section 7, C06; pre-findings F3-F6 (section 8) + new finding F26 (update_link copies the cached _style_definition)",
+}
